@@ -8,6 +8,8 @@ import MidnightZK.Proofs.C12.Domain
 import MidnightZK.Proofs.C12.FftIter
 import MidnightZK.Proofs.C12.Interp
 import MidnightZK.Proofs.C12.Ifft
+import MidnightZK.Proofs.C12.Bitrev
+import MidnightZK.Proofs.C12.BatchAdd
 import Mathlib.Algebra.Field.Rat
 import Mathlib.Tactic.NormNum
 import MidnightZK.Model.C12.Curve
@@ -344,6 +346,104 @@ example : msmSpecific (fun cs bs => msmSerial cs bs (0 : Int)) [[0], [3], [0, 0]
 
 end
 
+/-! ## The batch-affine path of `msm_best`: `Schedule` and `batch_add` -/
+
+section
+variable {G : Type} [AddCommGroup G] [DecidableEq G]
+
+/-- `schedule_invariant`: the state of `Schedule` always satisfies "the pending entries target
+pairwise distinct buckets, each of which holds a point" (`Sched.Inv`), with fewer than
+`BATCH_SIZE = 64` entries pending and an unchanged number of buckets: it holds for `Schedule::new`
+and is preserved by `Schedule::add` whenever the caller checked `!sched.contains(buck_idx)` first
+(as `msm_best` does), including across the flush at 64 entries. This is exactly what `batch_add`
+needs (`batch_add_spec`): no bucket is read and written by two entries of one batch, and no entry
+meets an empty bucket. -/
+theorem schedule_invariant (s : Sched G) (P : G) (b : Nat) (sign : Bool) (h : s.Inv)
+    (hlen : s.pending.length < 64) (hc : s.contains b = false) (hb : b < s.buckets.length) :
+    (s.add P b sign).Inv ∧ (s.add P b sign).pending.length < 64 ∧
+      (s.add P b sign).buckets.length = s.buckets.length := by
+  obtain ⟨_, h2, h3⟩ := Sched.add_spec s P b sign h hc hb
+  refine ⟨h2, ?_, h3⟩
+  rw [Sched.add_eq]
+  have hl : (s.add1 P b sign).pending.length ≤ s.pending.length + 1 := by
+    unfold Sched.add1
+    split <;> simp
+  split
+  · simp [Sched.execute]
+  · next hne => omega
+
+omit [AddCommGroup G] [DecidableEq G] in
+/-- The invariant holds initially (`Schedule::new`: all buckets `None`, nothing pending). -/
+theorem schedule_invariant_init (n : Nat) :
+    ({ buckets := List.replicate n none, pending := [] } : Sched G).Inv := by
+  unfold Sched.Inv; simp
+
+omit [AddCommGroup G] [DecidableEq G] in
+/-- A quirk of `Schedule::contains` (it scans all 64 slots, and unused slots hold `buck_idx = 0`):
+bucket 0 is reported as "already scheduled" whenever the batch is not full, i.e. always — bucket 0
+never uses the affine path (a performance matter only: the Jacobian side is equally correct). -/
+theorem bucket_zero_never_scheduled (s : Sched G) (hlen : s.pending.length < 64) :
+    s.contains 0 = true := by
+  unfold Sched.contains
+  simp [hlen]
+
+omit [AddCommGroup G] [DecidableEq G] in
+/-- `contains` is sound: a bucket it does not report is not in the pending batch. -/
+theorem contains_sound (s : Sched G) (b : Nat) (h : s.contains b = false) :
+    b ∉ s.pending.map (·.1) :=
+  s.not_mem_of_contains b h
+
+end
+
+section
+variable {F : Type} [Field F] [DecidableEq F]
+
+/-- `batch_add_spec`: under the schedule invariant (pairwise distinct buckets, each holding a point,
+valid base indices — `schedule_invariant`) and when no tangent is vertical (`2y ≠ 0` for a bucket
+that is doubled: the curves here have no point of order two), the two loops of `batch_add` with
+their single shared inversion (`t_i = acc_i·num_i`, `acc *= z_i`; then backwards
+`λ_i = acc·t_i`, `acc *= z_i`) never panic and perform, for every scheduled entry independently,
+the affine chord step (`x` different: `λ = (y_B ∓ y_P)/(x_B − x_P)`), the tangent step (same `x`,
+`y` equal up to the sign: `λ = 3x²/2y`) or the cancellation (`set_inf`), each with its own
+quotient — for every batch size and every order. Outside these hypotheses the model still follows
+the code (correspondence lines `batchadd-*-dup`, `-vertical`). -/
+theorem batch_add_spec (bases : List (Aff F)) (buckets : List (Option (Aff F)))
+    (points : List SchedPt) (hok : BatchOk bases buckets points) :
+    batchAdd (fun a => if a = 0 then none else some a⁻¹) bases buckets points
+      = some (specFold bases points buckets) :=
+  batchAdd_eq_specFold bases buckets points hok
+
+/-- Non-vacuity over ℚ on `y² = x³ + 1`-like data: a chord `(0,1) + (2,3)`, a doubling of `(2,3)`
+and a cancellation `(2,3) + (2,−3)` in one batch sharing one inversion. -/
+example :
+    batchAdd (fun a : ℚ => if a = 0 then none else some a⁻¹)
+      [⟨2, 3⟩, ⟨2, -3⟩] [some ⟨0, 1⟩, some ⟨2, 3⟩, some ⟨2, 3⟩, none]
+      [⟨0, 0, true⟩, ⟨0, 1, true⟩, ⟨1, 2, true⟩]
+      = some [some ⟨-1, 0⟩, some ⟨0, 1⟩, none, none] := by
+  unfold batchAdd
+  norm_num [baFwd, baFwdStep, baBwd, baBwdStep]
+
+/-- On `y² = x³ + b`, the equal-`x` decision of `batch_add` (`(y_B == y_P) ^ !sign`) is the right
+one: "doubling" is taken exactly when the bucket IS the signed point `±P`, `set_inf` exactly when
+it is its opposite — the claim in the source comment ("this uses the fact that x1 == x2 and both
+points satisfy the curve eq."). Every `CurveAffine` of the crate has `a = 0` (the tangent slope
+`3x²/2y` has no `+a`). -/
+theorem batch_add_decision_sound (b : F) (B P : Aff F) (sign : Bool) (hB : B.y ^ 2 = B.x ^ 3 + b)
+    (hP : P.y ^ 2 = P.x ^ 3 + b) (hx : B.x = P.x) :
+    (((decide (B.y = P.y)) != (!sign)) = true → B.y = (if sign then P.y else -P.y)) ∧
+    (((decide (B.y = P.y)) != (!sign)) = false → B.y = -(if sign then P.y else -P.y)) :=
+  batch_add_decision b B P sign hB hP hx
+
+/-- Closure of one entry's step: for on-curve operands (no vertical tangent) the new bucket is on
+the curve `y² = x³ + b` again, in the chord and in the tangent case, for both signs. (That the
+chord/tangent point is the group sum — associativity etc. — is the group law of C11.) -/
+theorem batch_add_on_curve (b : F) (B P R : Aff F) (sign : Bool)
+    (hB : B.y ^ 2 = B.x ^ 3 + b) (hP : P.y ^ 2 = P.x ^ 3 + b) (hy : B.x = P.x → B.y + B.y ≠ 0)
+    (hR : affAddSigned B P sign = some R) : R.y ^ 2 = R.x ^ 3 + b :=
+  affAddSigned_on_curve b B P R sign hB hP hy hR
+
+end
+
 /-! ## Polynomial helpers (`proofs/src/utils/arithmetic.rs`) over a commutative ring -/
 
 section
@@ -473,21 +573,57 @@ theorem fft_iterative_eq_recursive (tw : Array F) (k : Nat) (a : List F) (hlen :
   rw [chunksOf_single _ (by positivity) a hlen]
   simp
 
+/-- The swap loop of `best_fft` (`for k in 0..n { let rk = bitreverse(k, log_n); if k < rk {
+a.swap(rk, k) } }` with the shift-and-or `bitreverse`) is the even/odd recursive bit-reversal
+permutation, for EVERY `log_n` and every vector of length `2^log_n`: `bitreverse` is an
+involution of `[0, 2^k)` (`bitreverse_involution`) that sends `b_{k-1}…b_0` to `b_0…b_{k-1}`
+(`bitreverse_low_bit` / `bitreverse_high_bit`), so swapping each pair once (`k < rk`) leaves
+`a[bitreverse i]` at position `i`. -/
+theorem bitrev_swap_eq_rec {α : Type} [Add α] [Sub α] [Mul α] [One α] (k : Nat) (a : List α)
+    (hlen : a.length = 2 ^ k) :
+    (bitrevPermute k a.toArray).toList = bitrevList k a :=
+  bitrevPermute_eq_bitrevList k a hlen
+
+/-- `bitreverse(·, l)` always lands in `[0, 2^l)` and is an involution there. -/
+theorem bitreverse_involution (k i : Nat) (hi : i < 2 ^ k) :
+    bitreverse i k < 2 ^ k ∧ bitreverse (bitreverse i k) k = i :=
+  ⟨bitreverse_lt k i, bitreverse_invol k i hi⟩
+
+/-- The low bit of the argument becomes the high bit of the result
+(`b_{k}…b_1 b_0 ↦ b_0 · 2^k + rev(b_k…b_1)`)… -/
+theorem bitreverse_low_bit (n l : Nat) :
+    bitreverse n (l + 1) = (n % 2) * 2 ^ l + bitreverse (n / 2) l :=
+  bitreverse_succ n l
+
+/-- …and the high bit becomes the low bit (`i < 2^k`: `rev_{k+1}(i) = 2·rev_k(i)`,
+`rev_{k+1}(2^k + i) = 2·rev_k(i) + 1`): `bitreverse` reverses the `k` low bits. -/
+theorem bitreverse_high_bit (k i : Nat) (hi : i < 2 ^ k) :
+    bitreverse i (k + 1) = 2 * bitreverse i k ∧
+    bitreverse (2 ^ k + i) (k + 1) = 2 * bitreverse i k + 1 :=
+  bitreverse_high k i hi
+
+example : bitreverse 0b0011 4 = 0b1100 ∧ bitreverse 0b1011 4 = 0b1101 := by decide
+
 /-- `best_fft`, both paths, every thread count: it returns the DFT of its input (evaluations at
 `ω⁰ … ω^(n−1)`) for every `k`, every vector of length `2^k` and every primitive `2^k`-th root `ω`
-(`ω^(2^(k−1)) = −1`), provided the in-place swap loop realises the bit-reversal permutation
-(`bitrev_swap_eq_rec_upto_7` below; by correspondence above `2^7`). A wrong length is rejected
-(`assert_eq!`). -/
+(`ω^(2^(k−1)) = −1`) — no size cap: the in-place swap loop is the bit-reversal permutation for
+every `k` (`bitrev_swap_eq_rec`). A wrong length is rejected (`assert_eq!`). -/
 theorem best_fft_eq_dft (t k : Nat) (a : List F) (ω : F) (hlen : a.length = 2 ^ k)
-    (hω : 1 ≤ k → ω ^ (2 ^ (k - 1)) = -1)
-    (hperm : (bitrevPermute k a.toArray).toList = bitrevList k a) :
+    (hω : 1 ≤ k → ω ^ (2 ^ (k - 1)) = -1) :
     bestFft t a ω k = some (dft ω a) := by
+  have hperm := bitrev_swap_eq_rec k a hlen
   unfold bestFft
   simp only [hlen, ne_eq, not_true_eq_false, if_false, hperm]
   have hbl : (bitrevList k a).length = 2 ^ k := length_bitrevList k a hlen
   split
   · rw [fft_iterative_eq_recursive _ k _ hbl, fft_recursive_eq_dft k a ω hlen hω]
   · rw [fft_recursive_eq_dft k a ω hlen hω]
+
+/-- `best_fft` rejects every other length (the `assert_eq!(n, 1 << log_n)`). -/
+theorem best_fft_wrong_length (t k : Nat) (a : List F) (ω : F) (hlen : a.length ≠ 2 ^ k) :
+    bestFft t a ω k = none := by
+  unfold bestFft
+  simp [hlen]
 
 example : bestFft 4 [(3 : Int), 5] (-1) 1 = some [8, -2] := by decide
 example : bestFft 1 [(3 : Int), 5] (-1) 1 = some [8, -2] := by decide
@@ -546,8 +682,8 @@ end
 
 /-- The swap loop of `best_fft` (`if k < rk { a.swap(rk, k) }` with the shift-and-or `bitreverse`)
 is the even/odd recursive bit-reversal permutation — checked on the position vector
-`[0, …, 2^k − 1]` for every `k ≤ 7` by kernel evaluation (a bounded statement: larger sizes are
-tied to the model by the correspondence run, which goes through the same swap loop). -/
+`[0, …, 2^k − 1]` for every `k ≤ 7` by kernel evaluation (kept as an independent evaluation of the
+executable definitions; the statement for every `k` is `bitrev_swap_eq_rec`). -/
 theorem bitrev_swap_eq_rec_upto_7 :
     ∀ k ∈ List.range 8,
       (bitrevPermute k (List.range (2 ^ k)).toArray).toList = bitrevList k (List.range (2 ^ k)) := by
@@ -568,11 +704,10 @@ variable {F : Type} [CommRing F]
 /-- `coeff_to_lagrange` returns the evaluations of the polynomial on the domain `{ωⁱ}`, for every
 thread count. -/
 theorem coeff_to_lagrange_spec (d : Domain F) (t : Nat) (a : List F) (hlen : a.length = 2 ^ d.k)
-    (hω : 1 ≤ d.k → d.omega ^ (2 ^ (d.k - 1)) = -1)
-    (hperm : (bitrevPermute d.k a.toArray).toList = bitrevList d.k a) :
+    (hω : 1 ≤ d.k → d.omega ^ (2 ^ (d.k - 1)) = -1) :
     d.coeffToLagrange t a = some ((List.range (2 ^ d.k)).map (fun i => horner a (d.omega ^ i))) := by
   unfold Domain.coeffToLagrange
-  rw [best_fft_eq_dft t d.k a d.omega hlen hω hperm, dft, hlen]
+  rw [best_fft_eq_dft t d.k a d.omega hlen hω, dft, hlen]
 
 /-- `coeff_to_extended_spec`: for every thread count, `coeff_to_extended` (scale the coefficients by
 `1, ζ, ζ², 1, …`, zero-pad to `2^extended_k`, FFT with `extended_omega`) returns the evaluations of
@@ -580,9 +715,7 @@ the polynomial on the coset `ζ·{ω_eⁱ}` of the extended domain — the form 
 is computed — given `ζ³ = 1`, `g_coset_inv = ζ²` and `ω_e` a primitive `2^extended_k`-th root. -/
 theorem coeff_to_extended_spec (d : Domain F) (t : Nat) (a : List F) (hlen : a.length = 2 ^ d.k)
     (hk : d.k ≤ d.extendedK) (hz : d.gCoset ^ 3 = 1) (hzi : d.gCosetInv = d.gCoset * d.gCoset)
-    (hω : 1 ≤ d.extendedK → d.extendedOmega ^ (2 ^ (d.extendedK - 1)) = -1)
-    (hperm : ∀ l : List F, l.length = 2 ^ d.extendedK →
-      (bitrevPermute d.extendedK l.toArray).toList = bitrevList d.extendedK l) :
+    (hω : 1 ≤ d.extendedK → d.extendedOmega ^ (2 ^ (d.extendedK - 1)) = -1) :
     d.coeffToExtended t a
       = some ((List.range (2 ^ d.extendedK)).map
           (fun i => horner a (d.gCoset * d.extendedOmega ^ i))) := by
@@ -595,7 +728,7 @@ theorem coeff_to_extended_spec (d : Domain F) (t : Nat) (a : List F) (hlen : a.l
       ++ List.replicate (2 ^ d.extendedK - (distributePowersZeta d a true).length) 0).length
       = 2 ^ d.extendedK := by
     rw [List.length_append, List.length_replicate, hdl]; omega
-  rw [best_fft_eq_dft t d.extendedK _ d.extendedOmega hl2 hω (hperm _ hl2), dft, hl2]
+  rw [best_fft_eq_dft t d.extendedK _ d.extendedOmega hl2 hω, dft, hl2]
   congr 1
   apply List.map_congr_left
   intro i _
@@ -607,6 +740,56 @@ example :
     (sampleDomain (-1 : Int) 0).coeffToExtended 3 [3, 5] = some [8, -2] ∧
     (sampleDomain (-1 : Int) 0).coeffToLagrange 1 [3, 5] = some [8, -2] := by
   decide
+
+end
+
+section
+variable {F : Type} [CommRing F]
+
+private theorem map_zip_mul (a : List F) : ∀ b : List F,
+    (a.zip b).map (fun ab => ab.1 * ab.2) = List.zipWith (· * ·) a b := by
+  induction a with
+  | nil => intro b; simp
+  | cons x t ih =>
+    intro b
+    cases b with
+    | nil => simp
+    | cons y u => simp [ih]
+
+/-- `compute_inner_product(a, b)` is `Σ aᵢ·bᵢ` for equal lengths (every length) and panics
+(`assert_eq!`) otherwise. -/
+theorem compute_inner_product_spec (a b : List F) :
+    computeInnerProduct a b
+      = if a.length = b.length then some ((List.zipWith (· * ·) a b).sum) else none := by
+  unfold computeInnerProduct
+  by_cases h : a.length = b.length
+  · simp only [h, ne_eq, not_true_eq_false, if_false, if_true]
+    rw [foldl_add_map (fun ab : F × F => ab.1 * ab.2) (a.zip b) 0, zero_add]
+    rw [map_zip_mul]
+  · simp [h]
+
+example : computeInnerProduct [(1 : Int), 2, 3] [4, 5, 6] = some 32 ∧
+    computeInnerProduct [(1 : Int), 2, 3] [4, 5] = none := by decide
+
+/-- `constant_lagrange(c)` (and `empty_lagrange` for `c = 0`) is the Lagrange form of the constant
+polynomial `c`: it is what `coeff_to_lagrange` returns on `[c, 0, …, 0]`, for every thread count. -/
+theorem constant_lagrange_spec (d : Domain F) (t : Nat) (c : F) (hn : d.n = 2 ^ d.k)
+    (hω : 1 ≤ d.k → d.omega ^ (2 ^ (d.k - 1)) = -1) :
+    d.coeffToLagrange t ([c] ++ List.replicate (2 ^ d.k - 1) 0) = some (d.constantLagrange c) := by
+  have hpos : 0 < 2 ^ d.k := by positivity
+  rw [coeff_to_lagrange_spec d t _ (by simp; omega) hω]
+  unfold Domain.constantLagrange
+  rw [hn]
+  congr 1
+  apply List.ext_getElem
+  · simp
+  · intro i h1 h2
+    simp only [List.getElem_map, List.getElem_replicate]
+    rw [horner_append_zeros]
+    simp [horner_cons, horner_nil]
+
+example : (sampleDomain (-1 : Int) 0).coeffToLagrange 2 ([7] ++ List.replicate (2 ^ 1 - 1) 0)
+    = some ((sampleDomain (-1 : Int) 0).constantLagrange 7) := by decide
 
 end
 
@@ -670,19 +853,16 @@ omit [DecidableEq F] in
 /-- `ifft_fft_id`: over a field of characteristic ≠ 2 in which `n = 2^k` is invertible, for every
 pair of thread counts, `ifft(·, ω⁻¹, k, 1/n)` (as used by `lagrange_to_coeff` /
 `extended_to_coeff`) undoes `best_fft(·, ω, k)` (as used by `coeff_to_lagrange` /
-`coeff_to_extended`): the Lagrange and coefficient forms are mutually consistent. (Bit-reversal
-hypotheses as in `best_fft_eq_dft`.) -/
+`coeff_to_extended`): the Lagrange and coefficient forms are mutually consistent. -/
 theorem ifft_fft_id (t1 t2 k : Nat) (a : List F) (ω : F) (hlen : a.length = 2 ^ k)
-    (hω : 1 ≤ k → ω ^ (2 ^ (k - 1)) = -1) (h2 : (1 : F) ≠ -1) (hn : ((2 ^ k : Nat) : F) ≠ 0)
-    (hperm1 : (bitrevPermute k a.toArray).toList = bitrevList k a)
-    (hperm2 : (bitrevPermute k (dft ω a).toArray).toList = bitrevList k (dft ω a)) :
+    (hω : 1 ≤ k → ω ^ (2 ^ (k - 1)) = -1) (h2 : (1 : F) ≠ -1) (hn : ((2 ^ k : Nat) : F) ≠ 0) :
     (bestFft t1 a ω k).bind (fun e => ifft t2 e ω⁻¹ k ((2 ^ k : Nat) : F)⁻¹) = some a := by
-  rw [best_fft_eq_dft t1 k a ω hlen hω hperm1]
+  rw [best_fft_eq_dft t1 k a ω hlen hω]
   simp only [Option.bind_some, ifft]
   have hdl : (dft ω a).length = 2 ^ k := by simp [dft, hlen]
   have hωi : 1 ≤ k → ω⁻¹ ^ (2 ^ (k - 1)) = -1 := by
     intro hk; rw [inv_pow, hω hk, inv_neg, inv_one]
-  rw [best_fft_eq_dft t2 k (dft ω a) ω⁻¹ hdl hωi hperm2]
+  rw [best_fft_eq_dft t2 k (dft ω a) ω⁻¹ hdl hωi]
   simp only [Option.map_some]
   congr 1
   apply List.ext_getElem
